@@ -287,6 +287,73 @@ func TestVerif_C09(t *testing.T) {
 		}
 		rec.Distinct(fmt.Sprintf("tcp|src=%s|served=%v", src, got))
 	}
+	// a connection opened while its address was listed is judged by the list in force NOW
+	for _, via := range []string{"UpdatePolicyOptions", "UpdateExportOptions"} {
+		set := func(l []string) {
+			if via == "UpdatePolicyOptions" {
+				q := *srv.nfs.policy.Load()
+				q.AllowedIPs = l
+				srv.nfs.UpdatePolicyOptions(q)
+			} else {
+				eo := srv.nfs.GetExportOptions()
+				eo.AllowedIPs = l
+				srv.nfs.UpdateExportOptions(eo)
+			}
+		}
+		set([]string{"127.0.0.2"})
+		d := net.Dialer{LocalAddr: &net.TCPAddr{IP: net.ParseIP("127.0.0.2")}, Timeout: 10 * time.Second}
+		conn, err := d.Dial("tcp", fmt.Sprintf("127.0.0.1:%d", port))
+		if err != nil {
+			rec.Inconclusive(1)
+			continue
+		}
+		call := func(xid, proc uint32, args []byte) (string, error) {
+			conn.SetDeadline(time.Now().Add(20 * time.Second))
+			conn.Write(xdrw.Record(append(xdrw.CallHeader(xid, vfProgNFS, 3, proc, vfRootCred()), args...)))
+			var hdr [4]byte
+			if _, err := io.ReadFull(conn, hdr[:]); err != nil {
+				if ne, ok := err.(net.Error); ok && ne.Timeout() {
+					return "", err
+				}
+				return "closed", nil
+			}
+			n := (uint32(hdr[0])<<24 | uint32(hdr[1])<<16 | uint32(hdr[2])<<8 | uint32(hdr[3])) & 0x7fffffff
+			b := make([]byte, n)
+			if _, err := io.ReadFull(conn, b); err != nil {
+				return "closed", nil
+			}
+			rep, derr := rfc.DecodeReply(b)
+			if derr != nil {
+				return "undecodable", nil
+			}
+			if rep.Denied {
+				return "denied", nil
+			}
+			return "accepted", nil
+		}
+		if r, err := call(1, 0, nil); err != nil || r != "accepted" {
+			rec.Inconclusive(1)
+			conn.Close()
+			continue
+		}
+		set([]string{"127.0.0.3"})
+		for i, pr := range []uint32{0, 1, 19, 3} {
+			rec.Eval(1)
+			r, err := call(uint32(10+i), pr, xdrw.ArgDirop(root, "f"))
+			if err != nil {
+				rec.Inconclusive(1)
+				break
+			}
+			if r == "accepted" {
+				rec.Violate("C09/delisted-client-served-on-connection-opened-earlier/via="+via, fmt.Sprintf("127.0.0.2 was removed from AllowedIPs by %s; NFS procedure %d on its already open connection was still answered MSG_ACCEPTED", via, pr), nil)
+			}
+			rec.Distinct(fmt.Sprintf("tcp-old-connection|%s|proc=%d|%s", via, pr, r))
+			if r == "closed" {
+				break
+			}
+		}
+		conn.Close()
+	}
 	rec.Set("tcp_clients", tcp)
 	rec.Sample(map[string]any{"allow_list": cases[3].list, "clients": cases[3].clients})
 }
